@@ -15,7 +15,18 @@ import trio
 import stackscope
 
 GB = {"greenback_shim": "GS", "_greenback_shim": "SH", "_greenback_shim_sync": "SHS", "trampoline": "TR",
-      "await_": "AW", "with_portal_run": "WPR", "with_portal_run_sync": "WPRS"}
+      "await_": "AW", "with_portal_run": "WPR", "with_portal_run_sync": "WPRS", "adapt_awaitable": "ADAPT"}
+
+
+class Box:
+    """a non-coroutine awaitable around a coroutine (greenback.await_ then goes through adapt_awaitable)"""
+
+    def __init__(self, coro):
+        self.coro = coro
+
+    def __await__(self):
+        return self.coro.__await__()
+
 
 
 class M:
@@ -90,8 +101,11 @@ class Ctl:
         frames = list(st.frames)
         while frames and frames[-1].funcname in ("observe_inside",) and frames[-1].pyframe.f_globals is globals():
             frames.pop()
-        real = [self.classify(f) + [bool(f.hide)] for f in frames]
-        want = [[x["fn"], x["u"], bool(x["hide"])] for x in exp]
+        want = [[x["fn"], x["u"], x["hide"]] for x in exp]
+        real = [self.classify(f) + ["yes" if f.hide else "no"] for f in frames]
+        for r, x in zip(real, want):
+            if x[2] == "any":
+                r[2] = "any"
         info = {"step": self.k, "where": where, "acts": self.acts[:self.k]}
         if real != want:
             self.bad.append(dict(info, what="frames differ", real=real, spec=want))
@@ -192,17 +206,23 @@ def s_frame(ctl, idx):
             with ctl.new_mgr(idx + 1, M):
                 if e == "call":
                     s_frame(ctl, idx + 1)
+                elif e == "await_o":
+                    greenback.await_(Box(a_frame(ctl, idx + 1)))
                 else:
                     greenback.await_(a_frame(ctl, idx + 1))
         elif act["cm"] == "gb":
             with greenback.async_context(ctl.new_mgr(idx + 1, AM)):
                 if e == "call":
                     s_frame(ctl, idx + 1)
+                elif e == "await_o":
+                    greenback.await_(Box(a_frame(ctl, idx + 1)))
                 else:
                     greenback.await_(a_frame(ctl, idx + 1))
         else:
             if e == "call":
                 s_frame(ctl, idx + 1)
+            elif e == "await_o":
+                greenback.await_(Box(a_frame(ctl, idx + 1)))
             else:
                 greenback.await_(a_frame(ctl, idx + 1))
 
